@@ -339,3 +339,8 @@ impl VerifNotification {
 #[path = "verif_pipe.rs"]
 mod pipe;
 pub use pipe::*;
+
+// Third group of hooks (bounded user event channel), kept in its own file.
+#[path = "verif_bounded.rs"]
+mod bounded;
+pub use bounded::*;
